@@ -1,6 +1,7 @@
 (** * DispatcherP: the rewards dispatcher (C17; parameter part of C20) *)
 From Krp Require Import Tactics Prelude Fixed FMap Types Env Dispatcher.
 Open Scope N_scope.
+Ltac Zify.zify_post_hook ::= Z.div_mod_to_equations.
 
 (** ** floor facts *)
 Lemma mulU_val a r x : mulU a r = Some x -> x = a * r / D.
@@ -46,9 +47,9 @@ Proof.
   destruct (fits128 ((rst + conv) * stb / (stb + bb))); inversion Hshare; subst share; clear Hshare.
   destruct ((rst + conv) * stb / (stb + bb) <? rst) eqn:Hlt.
   - bind_inv H as sell Hsell. inversion H; subst. left.
-    unfold sub128 in Hsell. destruct (_ <=? rst); inversion Hsell; subst. repeat split. lia.
+    unfold sub128 in Hsell. check_inv Hsell as Hc. inversion Hsell; subst. repeat split. apply N.le_sub_l.
   - bind_inv H as buy Hbuy. bind_inv H as bsell Hbsell. inversion H; subst. right.
-    unfold sub128 in Hbuy. destruct (rst <=? _) eqn:Hle; inversion Hbuy; subst buy; clear Hbuy.
+    unfold sub128 in Hbuy. check_inv Hbuy as Hle. inversion Hbuy; subst buy; clear Hbuy.
     apply mulU_val in Hbsell. subst oa. repeat split.
     set (total := rst + rb * x_b2st / D) in *.
     assert (Hsh : total * stb / (stb + bb) <= total).
@@ -95,11 +96,11 @@ Proof.
   - destruct (b =? 0); [inversion Hm1; reflexivity|].
     bind_inv Hm1 as k Hk. bind_inv Hm1 as rest Hrest. inversion Hm1; subst.
     apply mulU_val in Hk. subst k. unfold sub128 in Hrest.
-    destruct (_ <=? b); inversion Hrest; subst. reflexivity.
+    check_inv Hrest as Hc. inversion Hrest; subst. reflexivity.
   - destruct (st =? 0); [inversion Hm2; reflexivity|].
     bind_inv Hm2 as k Hk. bind_inv Hm2 as rest Hrest. inversion Hm2; subst.
     apply mulU_val in Hk. subst k. unfold sub128 in Hrest.
-    destruct (_ <=? st); inversion Hrest; subst. reflexivity.
+    check_inv Hrest as Hc. inversion Hrest; subst. reflexivity.
 Qed.
 
 (** DispatchRewards succeeds for every balance and every keeper rate in [0,1] when sent by the hub
@@ -167,16 +168,19 @@ Theorem no_zero_transfer dp b st :
   dp_rate dp <= D -> ~ Known_F2 (dp_rate dp) b st ->
   forall m x, In m (dispatch_msgs dp b st) -> In x (msg_amounts m) -> 0 < x.
 Proof.
-  intros Hr Hk m x Hm Hx. unfold Known_F2 in Hk. unfold dispatch_msgs in Hm.
+  intros Hr Hk m x Hm Hx. unfold Known_F2 in Hk. unfold dispatch_msgs in Hm. cbn zeta in Hm.
   assert (Hkb : b * dp_rate dp / D <= b).
   { apply N.div_le_upper_bound; [exact D_nz|]. rewrite N.mul_comm. apply N.mul_le_mono_r. exact Hr. }
+  assert (Hks : st * dp_rate dp / D <= st).
+  { apply N.div_le_upper_bound; [exact D_nz|]. rewrite N.mul_comm. apply N.mul_le_mono_r. exact Hr. }
+  set (kb := b * dp_rate dp / D) in *. set (ks := st * dp_rate dp / D) in *. clearbody kb ks.
   apply in_app_or in Hm. destruct Hm as [Hm|Hm]; [|apply in_app_or in Hm; destruct Hm as [Hm|Hm]].
   - destruct (b =? 0) eqn:Hb; [contradiction|].
     destruct Hm as [<-|[<-|[]]]; cbn in Hx; destruct Hx as [<-|[]]; lia.
   - destruct (st =? 0) eqn:Hs; [contradiction|].
     destruct Hm as [<-|Hm].
     + cbn in Hx. destruct Hx as [<-|[]]. lia.
-    + destruct (st - st * dp_rate dp / D =? 0) eqn:Hz; [contradiction|].
+    + destruct (st - ks =? 0) eqn:Hz; [contradiction|].
       destruct Hm as [<-|[]]. cbn in Hx. destruct Hx as [<-|[]]. lia.
   - destruct Hm as [<-|[]]. cbn in Hx. contradiction.
 Qed.
@@ -217,4 +221,59 @@ Proof.
   - repeat (inv_bind H; cbn [bind] in H). inversion H; subst. cbn. auto.
   - repeat (inv_bind H; cbn [bind] in H). inversion H; subst. cbn. auto.
   - repeat (inv_bind H; cbn [bind] in H). inversion H; subst. cbn. auto.
+Qed.
+
+(** ** C17.2 — the share after the swap.  Selling the stSei-side coin leaves exactly the share;
+    buying it (by selling [bsell] of the bSei-side coin at the oracle price [p], with the stub's
+    floor rounding, [q = inv p]) leaves the share up to rounding: one unit of the sold coin valued
+    at the price, plus the relative error p/10^36 of [Decimal::inv]. *)
+Lemma swap_buy_generic d buy p q bsell got e f :
+  0 < d -> 0 < p ->
+  q * p <= d * d -> d * d < q * p + p ->
+  bsell * d <= buy * p -> buy * p < bsell * d + d ->
+  got * d <= bsell * q -> bsell * q < got * d + d ->
+  buy * p < (e + 1) * (d * d) -> q < (f + 1) * d ->
+  got <= buy /\ buy <= got + e + f + 2.
+Proof.
+  intros Hd Hp Hq1 Hq2 Hb1 Hb2 Hg1 Hg2 He Hf.
+  assert (Hdd : 0 < d * d) by nia.
+  split.
+  - assert (A : got * d * d <= bsell * q * d) by (apply N.mul_le_mono_r; exact Hg1).
+    assert (B : bsell * d * q <= buy * p * q) by (apply N.mul_le_mono_r; exact Hb1).
+    assert (C : buy * (q * p) <= buy * (d * d)) by (apply N.mul_le_mono_l; exact Hq1).
+    assert (E : got * (d * d) <= buy * (d * d)) by lia.
+    apply N.mul_le_mono_pos_r in E; assumption.
+  - assert (A1 : bsell * q * d < (got * d + d) * d) by (apply N.mul_lt_mono_pos_r; assumption).
+    assert (A2 : buy * p * q <= (bsell * d + d) * q) by (apply N.mul_le_mono_r; lia).
+    assert (A3 : buy * (d * d) <= buy * (q * p + p)) by (apply N.mul_le_mono_l; lia).
+    assert (A4 : q * d < (f + 1) * d * d) by (apply N.mul_lt_mono_pos_r; assumption).
+    assert (E : buy * (d * d) < (got + e + f + 3) * (d * d)) by lia.
+    apply N.mul_lt_mono_pos_r in E; [lia|assumption].
+Qed.
+
+Theorem swap_buy_within_rounding buy p q :
+  0 < p -> q = D * D / p ->
+  let bsell := buy * p / D in
+  let got := bsell * q / D in
+  got <= buy /\ buy <= got + buy * p / (D * D) + q / D + 2.
+Proof.
+  intros Hp Hq bsell got.
+  assert (HDD : D * D <> 0) by discriminate.
+  apply (swap_buy_generic D buy p q bsell got).
+  - exact D_pos.
+  - exact Hp.
+  - subst q. rewrite N.mul_comm. apply N.mul_div_le. lia.
+  - subst q. pose proof (N.mod_lt (D * D) p ltac:(lia)) as Hm.
+    pose proof (N.div_mod (D * D) p ltac:(lia)) as Hdm.
+    rewrite (N.mul_comm (D * D / p) p). lia.
+  - unfold bsell. rewrite N.mul_comm. apply N.mul_div_le. exact D_nz.
+  - unfold bsell. pose proof (N.mod_lt (buy * p) D D_nz). pose proof (N.div_mod (buy * p) D D_nz).
+    rewrite (N.mul_comm (buy * p / D) D). lia.
+  - unfold got. rewrite N.mul_comm. apply N.mul_div_le. exact D_nz.
+  - unfold got. pose proof (N.mod_lt (bsell * q) D D_nz). pose proof (N.div_mod (bsell * q) D D_nz).
+    rewrite (N.mul_comm (bsell * q / D) D). lia.
+  - pose proof (N.mod_lt (buy * p) (D * D) HDD) as H1. pose proof (N.div_mod (buy * p) (D * D) HDD) as H2.
+    set (X := buy * p) in *. set (DD := D * D) in *. set (Y := X / DD) in *. clearbody X DD Y. lia.
+  - pose proof (N.mod_lt q D D_nz) as H1. pose proof (N.div_mod q D D_nz) as H2.
+    set (DD := D) in *. set (Y := q / DD) in *. clearbody DD Y. lia.
 Qed.
